@@ -38,6 +38,8 @@ def extra(led, tier, seed):
     from contracts import gemini_registry
     led.extend(gemini_registry.obligations())
     led.extend(gemini_registry.frame_obligations())
+    from contracts import dtype_native
+    led.extend(dtype_native.gemini_dtypes(seed))
     from contracts import gemini_large
     led.extend(gemini_large.obligations(seed, tier))
     led.assume("A1", "A2", "A3", "A4", "A8", "A9",
